@@ -486,3 +486,64 @@ Definition run_jail2 (jail : bool) (rsrv : N) (root : bytes) (csrv : N) (cand : 
   let cs := pf_segs cand in
   OL [obool (pre_open_hook (if jail then Some [(rsrv, rs)] else None) (csrv, cs));
       OB (join_slash cs)].
+
+(* ---------- a backing transport WITHOUT the chroot stack ---------- *)
+(* SmartServerRequest over a bare LocalTransport (SmartTCPServer(backing_transport),
+   tests): the relpath returned by translate_client_path goes straight to
+   LocalTransport.get_bytes. *)
+Definition resolve_bare (vfs : bool) (rcp client_path : bytes) : res (list bytes) :=
+  match (if vfs then translate_vfs rcp client_path else translate_plain rcp client_path) with
+  | Fail e => Fail e
+  | Ok relpath => local_open relpath
+  end.
+
+Definition run_case_bare (vfs : bool) (rcp client_path : bytes) : obs :=
+  match (if vfs then translate_vfs rcp client_path else translate_plain rcp client_path) with
+  | Fail e => OL [OE e]
+  | Ok relpath =>
+      if vfs then
+        OL [OB relpath;
+            match local_open relpath with
+            | Fail e => OE e
+            | Ok segs => if has_nul segs then OE "OSError"
+                         else owalk (os_walk scratch_dirs scratch_files (rev scratch_served) segs)
+            end;
+            match local_open relpath with
+            | Fail _ => ON
+            | Ok segs => obool (stays_inside segs)
+            end]
+      else OL [OB relpath]
+  end.
+
+(* ---------- jail_info is a threading.local() ---------- *)
+(* setup_jail / teardown_jail / BzrDir.open (_pre_open_hook) issued by request
+   threads; [jstate] maps a thread to its jail_info.transports (absent = None). *)
+Inductive jop :=
+| JSetup (t : N) (roots : list (N * list bytes))
+| JTeardown (t : N)
+| JOpen (t : N) (url : N * list bytes).
+Definition jop_thread (o : jop) : N :=
+  match o with JSetup t _ => t | JTeardown t => t | JOpen t _ => t end.
+Definition jstate := list (N * option (list (N * list bytes))).
+Fixpoint jget (t : N) (s : jstate) : option (list (N * list bytes)) :=
+  match s with
+  | [] => None
+  | (t', v) :: r => if t =? t' then v else jget t r
+  end.
+Fixpoint jail_run (s : jstate) (ops : list jop) : list bool :=
+  match ops with
+  | [] => []
+  | JSetup t r :: k => jail_run ((t, Some r) :: s) k
+  | JTeardown t :: k => jail_run ((t, None) :: s) k
+  | JOpen t u :: k => pre_open_hook (jget t s) u :: jail_run s k
+  end.
+(* harness form: roots / candidates as URL paths on the filtered server (id 0) *)
+Inductive jop_s := SSetup (t : N) (root : bytes) | STeardown (t : N) | SOpen (t : N) (cand : bytes).
+Definition jop_of (o : jop_s) : jop :=
+  match o with
+  | SSetup t r => JSetup t [(0, pf_segs r)]
+  | STeardown t => JTeardown t
+  | SOpen t c => JOpen t (0, pf_segs c)
+  end.
+Definition run_jail_threads (ops : list jop_s) : obs :=
+  olist obool (jail_run [] (map jop_of ops)).
